@@ -349,6 +349,31 @@ def pipeline (spec : List Opt) (ini : List (Str × CfgVal)) (dodo : List (Str ×
   | .error e => .error e
   | .ok st => withDodo dodo (parse false st env argv).2
 
+/-- what `DoitMain.run` makes of the resolution: the command's return, `ERROR: …` with exit code 3, or an uncaught
+    exception (traceback, exit status 1) -/
+inductive Outcome
+  | done (p : Params) (pos : List Str)
+  | exit3 (e : Err)
+  | traceback (e : Err)
+
+def Outcome.kind : Outcome → Nat        -- 0 done, 3 exit code 3, 1 traceback
+  | .done _ _ => 0
+  | .exit3 _ => 3
+  | .traceback _ => 1
+
+def afterParse : Except Err (Params × List Str) → Outcome
+  | .error e => .exit3 e
+  | .ok (p, pos) => .done p pos
+
+/-- `DoitMain.run` for a command built on `DoitCmdBase`: the config sections are converted when the command object
+    is created.  Since `fix: invalid option value in a config file is reported as an error (exit code 3)` that happens
+    inside the `try` that reports `CmdParseError`; `pinned := true` keeps the earlier behaviour (outside the `try`). -/
+def runMain (pinned : Bool) (spec : List Opt) (ini : List (Str × CfgVal)) (dodo : List (Str × Val))
+    (env : Str → Option Str) (argv : List Str) : Outcome :=
+  match overwriteDefaults ini spec with
+  | .error e => if pinned then .traceback e else .exit3 e
+  | .ok st => afterParse (withDodo dodo (parse false st env argv).2)
+
 /-! ## well-formed option tables -/
 
 def shortNames (spec : List Opt) : List Char := spec.filterMap (·.short)
